@@ -7,7 +7,7 @@ import numpy as np
 import math as m
 
 from typing import List  # pylint: disable=unused-import
-from numbers import Real
+from numbers import Real, Integral
 
 from qexpy.utils import IllegalArgumentError
 
@@ -165,7 +165,7 @@ class ExperimentalValueArray(np.ndarray):
             name = self.name  # found from the first element, which may be the one replaced
             super().__setitem__(key, dut.wrap_in_measurement(value, unit=self.unit, name=name))
             if name:
-                index = key + len(self) if isinstance(key, int) and key < 0 else key
+                index = key + len(self) if isinstance(key, Integral) and key < 0 else key
                 self[key].name = "{}_{}".format(name, index)
 
     def __pow__(self, power):
